@@ -15,8 +15,8 @@ CLAIMED = {
                 'A bounded native sweep of the same contracts on the real struct is the replay searcher.',
         'design_ref': '§5.1, §6 C05',
         'note': 'Assumes: T-laws for the element type (Into/From<u32> inverse, structural ==), usize 64-bit, Verus/Z3/rustc. The generated wrappers '
-                '(equate_/root_/are_equal_/new_/insert_) are covered by unit GEN only when it is listed in the evidence; define_* and iterator '
-                'queries are not covered.',
+                '(equate_/root_/are_equal_/new_/insert_/define_/evaluation functions) are covered by unit GEN only when it is listed in the evidence, '
+                'there against an assumed PrefixTreeN::iter contract; iterator queries (iter_*) are bounded-checked only.',
         'technique': 'contract-based deductive verification (Verus) of extracted real code; bounded native contract execution as replay',
     },
 }
@@ -75,6 +75,21 @@ CLAIMED['C18'] = {
     'note': 'Bounded stand-in, never counted as proved. Split independence is read as independence of Ok/Err and of the set of returned morphisms (see evidence assumptions).',
     'technique': 'bounded native execution of an executable contract on the real function (labelled bounded)',
 }
+CLAIMED['C07'] = {
+    'category': 'exploration',
+    'text': 'Bounded, on the modules the compiler (built from the current tree) emits for the probe theories: the real generated close_until/close are driven through operation '
+            'sequences (assertions over 3 elements per type interleaved with close(), close_until(k-th evaluation), close_until(iter_<rel> yields >= n tuples)) and the '
+            'executable contract of close_until is checked: it returns true only in a state in which the condition holds, false only in a state in which it does not hold and which '
+            'is closed (closing again changes nothing), and after every close() / close_until()==false the model is isomorphic, by a map fixing the caller\'s elements, to a '
+            'fresh model on which the same assertions were replayed and closed ONCE (resumption after an early return; probe p5 has non-surjective rules, so function '
+            'definitions are pending when close_until stops early). Part GEN-close (when listed in the evidence) additionally proves with Verus, on the emitted text of '
+            'close_until and close, the return-value half for all states: true is returned only directly after the condition returned true and false only directly after '
+            'is_dirty() returned false, with no state change in between.',
+    'design_ref': '§5.4, §6 C07',
+    'note': 'Bounded stand-in, labelled exploration, never counted as proved: close_until calls rule functions behind extern "Rust" and loop code over runtime iterators '
+            '(canonicalize, apply_*), which neither Verus nor Kani can take. Programs are sampled (the probes). Found F3 (see known-findings.json).',
+    'technique': 'bounded native execution of the executable contract of the generated close_until on emitted probe modules (labelled bounded)',
+}
 CLAIMED['C11'] = {
     'category': 'exploration',
     'text': 'Bounded and partial: the real diagnostic renderer (source_display.rs, Location::intersect and whipe_comments cut from their files) is run on every text of <= 5 '
@@ -91,11 +106,12 @@ CLAIMED['C04'] = {
             'representation invariant -- every index copy of a relation (each column order, new/old, each diagonal pattern) is the image of its primary '
             'copy, diagonal copies hold exactly the rows satisfying all their equalities, stored components are existing elements, the type sets hold '
             'exactly one representative per class -- is established by new() and preserved by every straight-line mutator (insert_<rel>, equate_<type>, '
-            'new_<type>) and by move_new_to_old (against an assumed PrefixTreeN::iter contract), that point queries equal membership of the root tuple '
-            'in the abstract relation (hence agree for equal arguments), and that is_dirty is exact. Partial: canonicalize, recompute_model_indices, '
-            'close/close_until, the iterators, evaluation functions, enum case queries and the element index are outside Verus; the statements about '
+            'new_<type>, define_<func>) and by move_new_to_old (against an assumed PrefixTreeN::iter contract), that point queries and evaluation functions '
+            'equal membership of the root tuple in the abstract relation (hence agree for equal arguments), and that is_dirty is exact. The invariant includes '
+            'the new/old partition (no tuple in both ages) and the per-element row lists (every row is listed under each of its components). '
+            'Partial: canonicalize, recompute_model_indices, close/close_until, the iterators and enum case queries are outside Verus; the statements about '
             'the state after close()/close_until() are covered ONLY by the bounded native sweep of the emitted modules (generated harness), reported '
-            'separately. Programs are sampled (4 probe theories), states/arguments/histories universal.',
+            'separately. Programs are sampled (6 probe theories), states/arguments/histories universal.',
     'design_ref': '§5.4, §6 C04',
     'note': 'Assumes the runtime contracts (UF, PT units), structural derives of the newtypes, the field naming convention. See evidence.assumptions.',
     'technique': 'contract-based deductive verification (Verus) of emitted code with generated contracts, per probe program',
@@ -103,14 +119,13 @@ CLAIMED['C04'] = {
 CLAIMED['C05']['text'] = CLAIMED['C05']['text'] + ' Unit GEN additionally proves, on the module emitted for each probe theory, that the generated wrappers use it correctly: ' \
     'root_ returns the representative, are_equal_ compares representatives, equate_ merges exactly the two classes (closed form of the generated equivalence), ' \
     'new_ returns a fresh singleton element, insert_ makes the tuple visible to the point query immediately for every argument of the same classes, '\
-    'define_ returns the existing value or a fresh element (part GEN-define, against an ASSUMED contract of the evaluation function, which is bounded-checked).'
+    'the evaluation function returns Some(y) exactly when the row is present (real text, closures with `?`), define_ returns the existing value or a fresh element.'
 
 NOT_APPLICABLE = {
     'C01': 'postcondition of the generated close_until loop and rule functions (extern "Rust", runtime iterators, string-templated generator): no function on that path can carry a contract Verus or Kani accepts (DESIGN §6)',
     'C02': 'needs the denotation of generated rule functions and define_*; not expressible as a contract within reach (DESIGN §6)',
     'C03': 'relational property of two executions of the generated loop; no contract within reach (DESIGN §6)',
     'C06': 'whole-history termination / liveness of generated loop code plus a Datalog-evaluated surjectivity check; not a per-call contract (DESIGN §6)',
-    'C07': 'postcondition of generated close_until (impl Fn argument, extern rule functions); not verifiable code (DESIGN §6)',
     'C09': '"rustc accepts the emitted text" is not a postcondition over Display impls; would be translation validation, another family',
     'C10': 'the static checks are ~300 eqlog rules interpreted by generated code; there is no Rust function whose contract is the reference semantics',
     'C12': 'state is a directory tree mutated through std::fs and a rustc child process, quantified over crash points; every callee is external',
